@@ -62,10 +62,16 @@ package service
 //@   atomic
 //@   requires c != nil
 
+// NewReplayCache builds an empty history; with the empty ghost history (no handshake checked yet)
+// such a cache satisfies the representation invariant (lemma), so the invariant holds from the start.
 //@ func NewReplayCache
 //@   props C07 C18
 //@   requires capacity <= MaxCapacity
 //@   ensures result.capacity == capacity && result.active != nil && len(result.active) == 0 && result.archive == nil
+//@   lemma[C07,empty-history-satisfies-invariant] forall p ref :: ptr(p, "*service.ReplayCache").active != nil && len(ptr(p, "*service.ReplayCache").active) == 0 \
+//@        && (forall h uint32 :: !has(ptr(p, "*service.ReplayCache").active, h)) && ptr(p, "*service.ReplayCache").archive == nil \
+//@        && ptr(p, "*service.ReplayCache").now == 0 && ptr(p, "*service.ReplayCache").r1 == 0 && ptr(p, "*service.ReplayCache").r2 == 0 \
+//@        && (forall h uint32 :: ptr(p, "*service.ReplayCache").last[h] == -1) ==> rcInv(ptr(p, "*service.ReplayCache"))
 
 // ---------------------------------------------------------------------------
 // Interfaces implemented in this package: calls are checked against the
